@@ -191,9 +191,9 @@ def fit_rule(ctx):
     ctx.rule('TABLES-FIT', 'fitted new-moon table: successive new-moon days it serves are 29 or 30 days apart over its whole range, segment joins included')
     I2 = ctx.interp(fuel=10 ** 10)
     I2.forbidden.discard('ShouXingUtil::*')
-    for name in p.inherent.get('ShouXingUtil', {}):
-        if name != 'calc_shuo':
-            I2.forbidden.add('ShouXingUtil::' + name)       # the series stay out of reach: only the table branch may be evaluated
+    # the series stay out of reach - not by function name (a helper extracted from calc_shuo must remain evaluable) but by what they read:
+    # the periodic-term tables, the TT-UT table and the correction strings
+    I2.forbidden_statics = set(['XL0', 'XL1', 'NUT_B', 'DT_AT', 'SB', 'QB'])
     F = fn_site(p, 'ShouXingUtil::calc_shuo')['file'] if isinstance(fn_site(p, 'ShouXingUtil::calc_shuo'), dict) else 'src/tyme/util.rs'
     try:
         kb = py(I2.static('SHUO_KB', 'src/tyme/util.rs'))
@@ -414,7 +414,6 @@ def run(ctx, pid='C03'):
     ctx.exhaustive_note = 'table rules are complete over the stored table; the stubbed-constructor rules use one sample year per leap-month position'
     from rules import shared
     ctx.include('effect_inventory', shared.effect_inventory)   # no new process-wide mutable state (MIR statics inventory)
-    ctx.include('solver_structure', shared.solver_structure)   # the day-level term / new-moon solvers fall back to the precise solver near civil midnight
     ctx.include('month_records', shared.month_records)   # leap table, solstice anchor, month memo, memo cells (shared, cached per source hash)
     I = ctx.interp(fuel=100000000)
     t = T(I)
